@@ -1,5 +1,7 @@
 import TypifyModel.Proofs.C06
 import TypifyModel.Proofs.C06Findings
+import TypifyModel.Proofs.StructProps
+import TypifyModel.Proofs.SerdeAttrs
 open TypifyModel.C06
 #print axioms default_value_partial
 #print axioms bad_default_partial
@@ -12,3 +14,10 @@ open TypifyModel.C06
 #print axioms default_same_build
 #print axioms default_fn_value
 #print axioms default_value_full_false
+#print axioms TypifyModel.StructProps.optional_member_never_required
+#print axioms TypifyModel.StructProps.bare_default_agrees_with_schema
+#print axioms TypifyModel.StructProps.dflt_keeps_value
+#print axioms TypifyModel.StructProps.wrapped_iff_nothing_to_fall_back_on
+#print axioms TypifyModel.SerdeAttrs.skipped_eq_rendered
+#print axioms TypifyModel.SerdeAttrs.skip_only_with_bare_default
+#print axioms TypifyModel.SerdeAttrs.skipped_value_is_intrinsic_default
